@@ -279,14 +279,15 @@ def h_placeholder(kind: int, tagmask: int, gmask: int) -> bool:
 
 def _shards(tier):
     out = []
-    top = 4 if tier == "quick" else 6
+    top = 4 if tier == "quick" else 5
     for k in range(8):
         out += [({"kind": k, "n": n}, 600) for n in range(top)]
         if tier == "quick":
             out += [({"kind": k, "n": top, "h0": h}, 1800) for h in range(7)]
         else:
-            out += [({"kind": k, "n": 5, "h0": h}, 1800) for h in range(7)]
-            out += [({"kind": k, "n": 6, "h0": h, "h1": g}, 3000) for h in range(7) for g in range(8)]
+            out += [({"kind": k, "n": 5, "h0": h, "h1": g}, 3000) for h in range(7) for g in range(8)]
+            if k in (0, 3):      # TestResult and ThreadsafeForwardingResult also at 6 calls
+                out += [({"kind": k, "n": 6, "h0": h, "h1": g, "h2": f}, 3000) for h in range(7) for g in range(8) for f in range(8)]
     return out
 
 
@@ -296,7 +297,7 @@ HARNESSES = [
                              "tags(+a), tags(-a), tags(+b), tags(-b), startTest-less addSkip+stopTest, outcome+stopTest} x 8 reporters "
                              "(TestResult, ExtendedToOriginalDecorator over extended/2.6/2.7 doubles, ThreadsafeForwardingResult, "
                              "MultiTestResult, Tagger, ExtendedToStreamDecorator feeding StreamToExtendedDecorator)",
-                    "thorough": "histories of <= 6 calls"},
+                    "thorough": "histories of <= 5 calls (<= 6 for TestResult and ThreadsafeForwardingResult)"},
             rule="non-trivial = at least 2 calls with a tags() call", twin_fix={"kind": 0, "n": 3},
             fidelity=lambda seed: [(k, 4, 2, 1, 4, 7, 0, 0, 0, True) for k in range(8)] + [(k, 3, 1, 3, 7, 0, 0, 0, 0, True) for k in range(8)],
             observe=lambda kind, n, h0, h1, h2, h3, h4, h5, h6, pr: run_history(kind, ([0] if pr or kind == 6 else []) + [h0, h1, h2, h3, h4, h5, h6][:n]),
